@@ -59,6 +59,11 @@ def check_layer(case):
     label = f"operators {[pauli.to_str((0, x, z), n, sign=False) for (x, z) in ops]} vs graph {gid} on {n} vertices"
     R = np.array([[(x >> q) & 1 for (x, z) in ops] for q in range(n)], dtype=np.int8)
     S = np.array([[(z >> q) & 1 for (x, z) in ops] for q in range(n)], dtype=np.int8)
+    # element type of the caller's arrays must not matter (qiskit's PauliList.x / .z are boolean arrays, Stabilizer holds int8)
+    dt = case.get("dtype") or ["int8", "bool", "int8", "uint8", "bool", "int64"][fw.h64("c16dt", n, gid, ops) % 6]
+    R8, S8 = R, S
+    R, S = R.astype(dt), S.astype(dt)
+    label += f" [arrays of dtype {dt}]"
     R0, S0 = R.copy(), S.copy()
     try:
         graph = L.Graph.decompress(n, gid)
@@ -67,7 +72,7 @@ def check_layer(case):
     sol = brute_solutions(n, gid, ops)
     exists = bool(sol.any())
     fails = []
-    info = {"exists": exists, "outcome": None}
+    info = {"exists": exists, "outcome": None, "dtype": dt}
     try:
         A = libif.guarded(lambda: L.fl.find_local_clifford_layer(R, S, graph), 12)
     except (libif.GuardTimeout, MemoryError):
@@ -113,7 +118,7 @@ def check_layer(case):
                       f"returned layer {blocks} does not map all operators into the graph state's group ({'other layers do' if exists else 'no layer does'}); {label}", {}))
     # library's own checker must agree with the oracle on the returned layer
     try:
-        if bool(L.fl.check_LC(R, S, graph, A)) != bool(sol[idx]):
+        if bool(L.fl.check_LC(R8, S8, graph, A)) != bool(sol[idx]):
             fails.append(("layer/check_LC", f"check_LC disagrees with the brute-force membership test for {blocks}; {label}", {}))
     except Exception:  # noqa: BLE001
         pass
@@ -153,6 +158,7 @@ def run_case(rep, case, sample=False):
     fails, info = check_layer(case)
     rep.case(nontrivial(case, info), dict(case, outcome=info["outcome"], layer_exists=info["exists"]) if sample else None)
     rep.count("branch", f"{'exists' if info['exists'] else 'absent'}:{info['outcome']}")
+    rep.count("dtype", info.get("dtype", "?"))
     rep.count("n_m", f"n={case['n']},m={len(case['ops'])}")
     for key, msg, extra in fails:
         rep.fail(key, case, msg, **extra)
@@ -222,7 +228,7 @@ def check_h(case):
 def classify_h(case):
     fails, info = _MEMO.get(repr(case)) or check_layer(case)
     return nontrivial(case, info), {"branch": f"{'exists' if info['exists'] else 'absent'}:{info['outcome']}",
-                                    "n_m": f"n={case['n']},m={len(case['ops'])}", "distribution": case.get("distribution", "?")}
+                                    "n_m": f"n={case['n']},m={len(case['ops'])}", "distribution": case.get("distribution", "?"), "dtype": info.get("dtype", "?")}
 
 
 def shard(arg):
